@@ -233,6 +233,8 @@ theorem updateInflight_sinv (fuel : Nat) : ∀ (s : S) (idx : Nat), SInv s → S
     · exact h
     · rename_i m hm
       split
+      · exact h
+      split
       · split
         · rename_i hq
           extract_lets m' s1
@@ -251,7 +253,7 @@ theorem updateInflight_sinv (fuel : Nat) : ∀ (s : S) (idx : Nat), SInv s → S
       · exact h
 
 /-- after a slot was freed, one pass of `_update_inflight` restores the full-window property -/
-theorem updateInflight_refill (fuel : Nat) : ∀ (s : S) (idx : Nat), SInvP 1 s →
+theorem updateInflight_refill (fuel : Nat) : ∀ (s : S) (idx : Nat), SInvP 1 s → s.sock.isNone = false →
     (∀ j, j < idx → ∀ m, s.out[j]? = some m → m.state ≠ .queued) → s.out.length < fuel + idx →
     SInv (s.updateInflight fuel idx).1 := by
   have noq : ∀ (s : S) (idx : Nat), SInvP 1 s → (∀ j, j < idx → ∀ m, s.out[j]? = some m → m.state ≠ .queued) →
@@ -262,15 +264,16 @@ theorem updateInflight_refill (fuel : Nat) : ∀ (s : S) (idx : Nat), SInvP 1 s 
     obtain ⟨j, hj, e⟩ := List.getElem_of_mem hx
     exact absurd hq (hpre j (by omega) x (by rw [List.getElem?_eq_getElem hj, e]))
   induction fuel with
-  | zero => intro s idx h hpre hf; exact noq s idx h hpre (by omega)
+  | zero => intro s idx h _ hpre hf; exact noq s idx h hpre (by omega)
   | succ n ih =>
-    intro s idx h hpre hf
+    intro s idx h hsk hpre hf
     unfold updateInflight
     split
     · rename_i hnone
       exact noq s idx h hpre (by rw [List.getElem?_eq_none_iff] at hnone; exact hnone)
     · rename_i m hm
       have hmq := h.qos m (List.mem_of_getElem? hm)
+      rw [if_neg (by rw [hsk]; simp)]
       split
       · rename_i hlt
         split
@@ -294,7 +297,7 @@ theorem updateInflight_refill (fuel : Nat) : ∀ (s : S) (idx : Nat), SInvP 1 s 
           · exact h2
           · exact updateInflight_sinv n s2 (idx + 1) h2
         · rename_i hq
-          apply ih s (idx + 1) h ?_ (by omega)
+          apply ih s (idx + 1) h hsk ?_ (by omega)
           intro j hj x hx
           by_cases hji : j = idx
           · subst hji
@@ -319,7 +322,8 @@ theorem ackState_sinv (s : S) (mid : Nat) (m : OutMsg) (h : SInv s) : SInvP 1 (a
   · intro x hx; exact h.rel x (hsub.subset hx)
   · intro x hx; exact h.enc x (hsub.subset hx)
 
-theorem doOnPublish_sinv (s : S) (mid : Nat) (h : SInv s) : SInv (s.doOnPublish mid).1 := by
+theorem doOnPublish_sinv (s : S) (mid : Nat) (h : SInv s) (hsk : s.sock.isNone = false) :
+    SInv (s.doOnPublish mid).1 := by
   cases hf : s.out.find? (·.mid = mid) with
   | none => exact (doOnPublish_none s mid hf).sinv h
   | some m =>
@@ -338,7 +342,7 @@ theorem doOnPublish_sinv (s : S) (mid : Nat) (h : SInv s) : SInv (s.doOnPublish 
       have e5 : s5 = ackState s mid m := by
         simp [s5, s4, s3, s2, s1, ackState, emit, setInfo, hqos]
       split
-      · have := updateInflight_refill (s5.out.length + 1) s5 0 (e5 ▸ hA) (by intro j hj; omega) (by omega)
+      · have := updateInflight_refill (s5.out.length + 1) s5 0 (e5 ▸ hA) hsk (by intro j hj; omega) (by omega)
         split
         rename_i s6 rc hu
         rw [hu] at this
@@ -351,10 +355,11 @@ theorem doOnPublish_sinv (s : S) (mid : Nat) (h : SInv s) : SInv (s.doOnPublish 
         rw [e5] at hmax
         exact absurd this hmax
 
-theorem handlePubackcomp_sinv (s : S) (mid : Nat) (h : SInv s) : SInv (s.handlePubackcomp mid).1 := by
+theorem handlePubackcomp_sinv (s : S) (mid : Nat) (h : SInv s) (hsk : s.sock.isNone = false) :
+    SInv (s.handlePubackcomp mid).1 := by
   unfold handlePubackcomp
   split
-  · exact doOnPublish_sinv s mid h
+  · exact doOnPublish_sinv s mid h hsk
   · exact h
 
 theorem handlePubrec_sinv (s : S) (mid : Nat) (h : SInv s) : SInv (s.handlePubrec mid).1 := by
@@ -402,6 +407,8 @@ theorem connackResend_sinv (fuel : Nat) : ∀ (s : S) (idx : Nat) (rc : RC), SIn
     split
     · exact h
     · rename_i m hm
+      split
+      · exact h
       split
       · exact (loopWrite_low s).sinv h
       · split
@@ -456,7 +463,12 @@ theorem handleConnack_sinv (s : S) (sp : Bool) (result : Nat) (ok : Bool) (h : S
           intro m hm
           have := h.enc m hm
           exact ⟨this.1, this.2.proto (p' := 3) (by rw [hp.1]; decide) (by decide)⟩
-        exact reconnect_sinv _ _ h1
+        have h2 := reconnect_sinv s0 ok h1
+        split
+        · rename_i s' hr
+          rw [hr] at h2
+          exact (Low.emit_ng _ _ rfl).sinv h2
+        · exact h2
     · have h1 : SInv s1 := by
         unfold s1; split
         · exact SInvP.of_eq (s := s) rfl rfl rfl rfl h
@@ -468,12 +480,13 @@ theorem handleConnack_sinv (s : S) (sp : Bool) (result : Nat) (ok : Bool) (h : S
       · split <;> exact h3
   · exact h
 
-theorem packetHandle_sinv (s : S) (p : RxPkt) (ok : Bool) (h : SInv s) : SInv (s.packetHandle p ok).1 := by
+theorem packetHandle_sinv (s : S) (p : RxPkt) (ok : Bool) (h : SInv s) (hsk : s.sock.isNone = false) :
+    SInv (s.packetHandle p ok).1 := by
   cases p with
   | connack sp rc => exact handleConnack_sinv _ _ _ _ h
   | publish m => exact (handlePublish_low _ _).sinv h
-  | puback mid => exact handlePubackcomp_sinv s mid h
-  | pubcomp mid => exact handlePubackcomp_sinv s mid h
+  | puback mid => exact handlePubackcomp_sinv s mid h hsk
+  | pubcomp mid => exact handlePubackcomp_sinv s mid h hsk
   | pubrec mid => exact handlePubrec_sinv _ _ h
   | pubrel mid => exact (handlePubrel_low _ _).sinv h
   | suback mid code => exact (Low.emit_ng _ _ rfl).sinv h
@@ -497,7 +510,7 @@ theorem loopRead_sinv (s : S) (item : RxItem) (ok : Bool) (h : SInv s) : SInv (s
     | none => exact absurd hsock hs
     | some c =>
       cases item with
-      | pkt p => exact (loopRead_pkt s p ok c hsock).sinv (packetHandle_sinv s p ok h)
+      | pkt p => exact (loopRead_pkt s p ok c hsock).sinv (packetHandle_sinv s p ok h (by rw [hsock]; rfl))
       | none => exact absurd (fun p => by simp) hi
       | eof => exact absurd (fun p => by simp) hi
       | err => exact absurd (fun p => by simp) hi
@@ -719,6 +732,8 @@ theorem connackResend_sock_none (fuel : Nat) : ∀ (s : S) (idx : Nat) (rc : RC)
     · exact h
     · rename_i m hm
       split
+      · exact h
+      split
       · exact low_none (loopWrite_low s) h
       · split
         rename_i s2 rc2 stop heq
@@ -877,6 +892,7 @@ theorem connackResend_retx (fuel : Nat) : ∀ (s : S) (idx : Nat) (rc : RC) (c :
     · rename_i m0 hm0
       have hm0mem : m0 ∈ s.out := List.mem_of_getElem? hm0
       have hidxlt : idx < s.out.length := (List.getElem?_eq_some_iff.mp hm0).1
+      rw [if_neg (by rw [hs]; simp)]
       split
       · -- queued: the loop stops; nothing behind a queued message needs retransmission
         rename_i hq
